@@ -433,6 +433,78 @@ func passEdgesDepth(fn *ssa.Function, depth int, guards ...Guard) (map[Edge]bool
 			}
 		}
 	}
+	// materialised booleans: `ok := a || b; if ok {...}` - the condition is a phi of constants and
+	// atom values; its T-edge is a pass edge when every way of the phi being T passed a guard
+	for _, b := range fn.Blocks {
+		if len(b.Instrs) == 0 {
+			continue
+		}
+		ifi, ok := b.Instrs[len(b.Instrs)-1].(*ssa.If)
+		if !ok {
+			continue
+		}
+		v, neg := ifi.Cond, false
+		for {
+			if u, ok := v.(*ssa.UnOp); ok && u.Op == token.NOT {
+				v, neg = u.X, !neg
+				continue
+			}
+			break
+		}
+		phi, ok := v.(*ssa.Phi)
+		if !ok {
+			continue
+		}
+		for _, T := range []bool{true, false} {
+			all, some := true, false
+			matched := make([]int, len(guards))
+			for i, e := range phi.Edges {
+				pred := phi.Block().Preds[i]
+				if k, isK := e.(*ssa.Const); isK && k.Value != nil && k.Value.Kind() == constant.Bool {
+					if constant.BoolVal(k.Value) != T {
+						continue
+					}
+					viaCut := false
+					for si, su := range pred.Succs {
+						if su == phi.Block() && edges[Edge{pred, si}] {
+							viaCut = true
+						}
+					}
+					if !viaCut {
+						all = false
+					}
+					some = true
+					continue
+				}
+				a := substTop(NormCond(e))
+				okAtom := false
+				for gi, g := range guards {
+					if m, passVal := g.Match(a); m && (T != a.Negated) == passVal {
+						okAtom = true
+						matched[gi]++
+					}
+				}
+				if !okAtom {
+					all = false
+				}
+				some = true
+			}
+			if !all || !some {
+				continue
+			}
+			for gi := range guards {
+				if matched[gi] > 0 {
+					counts[gi]++
+				}
+			}
+			// cond == phi XOR neg; phi == T  <=>  cond == (T != neg)
+			if T != neg {
+				edges[Edge{b, 0}] = true
+			} else {
+				edges[Edge{b, 1}] = true
+			}
+		}
+	}
 	return edges, counts
 }
 
@@ -1155,7 +1227,50 @@ var implyActive = map[*ssa.Function]bool{}
 // Callee parameters are substituted by the call's arguments while its body is inspected. When
 // startsOf yields edges for the callee, only paths from those edges are considered (bool kind).
 // The second result counts, per guard, the matches found inside.
+type implyKey struct {
+	call  *ssa.Call
+	idx   int
+	kind  string
+	cls   int
+	names string
+}
+
+type implyVal struct {
+	ok  bool
+	cnt []int
+}
+
+var implyMemo = map[implyKey]implyVal{}
+
+// CalleeImplies is memoised for top-level queries (no substitution, no assumptions, no start
+// edges): the same call site is summarised for the same guards by several rules.
 func CalleeImplies(call *ssa.Call, idx int, kind string, cls int, depth int, guards []Guard, startsOf func(*ssa.Function) map[Edge]bool) (bool, []int) {
+	memo := len(ParamSubst) == 0 && len(Assumed) == 0 && AssumeFn == nil && startsOf == nil
+	var key implyKey
+	if memo {
+		names := ""
+		for _, g := range guards {
+			if g.Name == "" {
+				memo = false
+			}
+			names += g.Name + "\x00"
+		}
+		if ExtraNilness != nil {
+			names += "+extra"
+		}
+		key = implyKey{call, idx, kind, cls, names}
+		if v, ok := implyMemo[key]; memo && ok {
+			return v.ok, append([]int{}, v.cnt...)
+		}
+	}
+	ok, cnt := calleeImplies(call, idx, kind, cls, depth, guards, startsOf)
+	if memo {
+		implyMemo[key] = implyVal{ok, append([]int{}, cnt...)}
+	}
+	return ok, cnt
+}
+
+func calleeImplies(call *ssa.Call, idx int, kind string, cls int, depth int, guards []Guard, startsOf func(*ssa.Function) map[Edge]bool) (bool, []int) {
 	zero := make([]int, len(guards))
 	callee := call.Call.StaticCallee()
 	if depth > 3 || !inModule(callee) || implyActive[callee] || idx >= callee.Signature.Results().Len() {
@@ -1242,10 +1357,32 @@ func CalleeImplies(call *ssa.Call, idx int, kind string, cls int, depth int, gua
 		cut[e] = true
 	}
 	if kind == "nil" {
-		// evaluated path-sensitively inside the callee
+		// without any guard match inside the callee (or in a helper whose error it returns) the
+		// implication cannot hold: skip the path-sensitive walk
+		anyInner := false
+		for _, n := range innerCnt {
+			if n > 0 {
+				anyInner = true
+			}
+		}
+		if !anyInner {
+			for _, p := range pts {
+				if rc, _ := resultCall(p.val); rc != nil && mayMatchInside(rc.Call.StaticCallee(), guards, depth+1) {
+					anyInner = true
+				}
+			}
+		}
+		if !anyInner {
+			return false, innerCnt
+		}
+		// evaluated path-sensitively inside the callee (bounded: a summary that cannot be computed
+		// within the budget is "not implied", never "implied")
 		reachCls := false
 		anyRet := false
-		NilWalk(callee, nil, cut, nil, func(in ssa.Instruction, f NilFacts) {
+		savedMax := MaxWalkStates
+		MaxWalkStates = 4000
+		defer func() { MaxWalkStates = savedMax }()
+		wres := NilWalk(callee, nil, cut, nil, func(in ssa.Instruction, f NilFacts) {
 			ret, ok := in.(*ssa.Return)
 			if !ok || idx >= len(ret.Results) {
 				return
@@ -1275,6 +1412,10 @@ func CalleeImplies(call *ssa.Call, idx int, kind string, cls int, depth int, gua
 			}
 			reachCls = true
 		})
+		MaxWalkStates = savedMax
+		if wres.Overflow {
+			return false, innerCnt
+		}
 		if !anyRet {
 			// every path panics or the walk found no return on uncut paths: the class cannot occur
 			hasRet := false
@@ -1420,4 +1561,42 @@ func Deep(pred func(ssa.Instruction) bool, depth int, cutOf func(*ssa.Function) 
 		}
 	}
 	return deep(0)
+}
+
+// mayMatchInside: some condition in fn (or in a module function whose result fn returns) matches
+// one of the guards. A cheap necessary condition for a summary to succeed.
+func mayMatchInside(fn *ssa.Function, guards []Guard, depth int) bool {
+	if !inModule(fn) || depth > 3 || implyActive[fn] {
+		return false
+	}
+	for _, b := range fn.Blocks {
+		if len(b.Instrs) == 0 {
+			continue
+		}
+		if ifi, ok := b.Instrs[len(b.Instrs)-1].(*ssa.If); ok {
+			a := substTop(NormCond(ifi.Cond))
+			for _, g := range guards {
+				if m, _ := g.Match(a); m {
+					return true
+				}
+			}
+		}
+	}
+	found := false
+	AllInstrs(fn, func(in ssa.Instruction) {
+		ret, ok := in.(*ssa.Return)
+		if !ok || found {
+			return
+		}
+		for _, v := range ret.Results {
+			if rc, _ := resultCall(v); rc != nil && rc.Call.StaticCallee() != fn {
+				implyActive[fn] = true
+				if mayMatchInside(rc.Call.StaticCallee(), guards, depth+1) {
+					found = true
+				}
+				delete(implyActive, fn)
+			}
+		}
+	})
+	return found
 }
